@@ -374,7 +374,25 @@ type c15Succ struct {
 var compactRe = regexp.MustCompile(`([A-Za-z][A-Za-z0-9_-]*)\.([A-Za-z][A-Za-z0-9_]*)`)
 
 // c15Successors enumerates every applicable (operator, position).
+// c15SwapsOnly: for the many-siblings profile only the order rewrites are explored (each state costs a 28-quantifier
+// compilation; quoting/style rewrites of it add nothing the other profiles do not cover)
+var c15SwapsOnly = false
+
 func c15Successors(s c15State) []c15Succ {
+	all := c15SuccessorsAll(s)
+	if !c15SwapsOnly {
+		return all
+	}
+	var out []c15Succ
+	for _, x := range all {
+		if strings.HasPrefix(x.label, "swap ") {
+			out = append(out, x)
+		}
+	}
+	return out
+}
+
+func c15SuccessorsAll(s c15State) []c15Succ {
 	var out []c15Succ
 	mut := func(label string, f func(r *yaml.Node)) {
 		c := yamlClone(s.root)
@@ -656,6 +674,7 @@ func c15Verdict(c *Ctx, text string) (string, CallRes) {
 }
 
 func c15Run(c *Ctx, cs c15Case) {
+	c15SwapsOnly = cs.Profile == 6
 	var root yaml.Node
 	if err := yaml.Unmarshal([]byte(c15Bases[cs.Profile]), &root); err != nil {
 		panic("harness: base profile does not parse: " + err.Error())
